@@ -412,6 +412,23 @@ func proofs(o *vlib.Out, rng *rand.Rand, reps int) {
 				rec(obj, "identity-elements", func() bool { return pp != nil && v.VerifyBatch(id, id, Bs, kB2, pp) })
 				rec(obj, "identity-elements", func() bool { return pp != nil && v.VerifyBatch(A, kA, ids, kB2, pp) })
 			}
+			// a batch position holding the identity: (B_i, k*B_i) = (O, O) is a true statement; any other D_i is false
+			{
+				Bi := append([]group.Element{}, Bs...)
+				Di := append([]group.Element{}, kBs...)
+				pos := rng.Intn(n)
+				Bi[pos], Di[pos] = g.Identity(), g.Identity()
+				pri, err := dleq.Prover{Params: params}.ProveBatch(k, A, kA, Bi, Di, rd)
+				if err == nil {
+					rec(obj, "none", func() bool { return v.VerifyBatch(A, kA, Bi, Di, pri) })
+					Dj := append([]group.Element{}, Di...)
+					Dj[pos] = g.RandomElement(rd)
+					rec(obj, "identity-elements", func() bool { return v.VerifyBatch(A, kA, Bi, Dj, pri) })
+					Dj2 := append([]group.Element{}, Di...)
+					Dj2[pos] = g.Generator()
+					rec(obj, "identity-elements", func() bool { return v.VerifyBatch(A, kA, Bi, Dj2, pri) })
+				}
+			}
 			// ---- Schnorr
 			sobj := fmt.Sprintf("dl %v", g)
 			kG := g.NewElement().Mul(G1, k)
